@@ -259,7 +259,7 @@ class SPSuite(Suite):
         cases = []
         for mode in ("n", "c"):
             for size in list(range(0, 14)) + [24, 25, 26, 40, 48, 49, 50]:
-                for how in ("del", "clear", "await", "pop", "mrg", "mov", "asg"):
+                for how in ("del", "clear", "await", "pop", "popall", "mrg", "mov", "asg"):
                     ls = ["case 0 sp %s 3 %d" % (mode, NCOROS), "ctorv 0 7" if how == "asg" else "ctor 0"]
                     ls += ["addh 0 %d" % k for k in range(size)]
                     if how in ("del", "clear"):
@@ -269,6 +269,8 @@ class SPSuite(Suite):
                     elif how == "pop":
                         ls += ["pop 0"] * (size + 1)
                         ls += ["addh 0 %d" % (60 + k) for k in range(min(size, 8))]
+                    elif how == "popall":
+                        ls += ["pop 0"] * size + ["size 0", "del 0"]
                     elif how == "mrg":
                         ls += ["ctorh 1 80", "addh 1 81", "mrg 1 0", "size 1", "del 0", "pop 1"]
                     elif how == "mov":
@@ -279,9 +281,54 @@ class SPSuite(Suite):
                     cases.append({"id": 0, "lines": ls})
         return cases
 
+    def exhaustive_cases(self, depth):
+        """every sequence of up to `depth` macro-operations over two suspend points (slot 0 starts with 3 handles, i.e.
+        at the inline limit, slot 1 with one), in both modes; `grow` adds 4 handles at once (crosses the next boundary)"""
+        alphabet = ["add0", "add1", "grow0", "mrg01", "mrg10", "asg01", "mov", "pop0", "pop1", "clear0", "del0", "del1",
+                    "await0", "await1"]
+        cases = []
+
+        def rec(prefix):
+            if prefix:
+                for mode in ("n", "c"):
+                    cases.append(self.expand(mode, prefix))
+            if len(prefix) < depth:
+                for a in alphabet:
+                    rec(prefix + [a])
+        rec([])
+        return cases
+
+    def expand(self, mode, macros):
+        ls = ["case 0 sp %s 3 %d" % (mode, NCOROS), "ctorh 0 0", "addh 0 1", "addh 0 2", "ctorhv 1 3 5"]
+        nxt = 4
+        me = 100
+        for m in macros:
+            if m in ("add0", "add1"):
+                ls.append("addh %s %d" % (m[-1], nxt)); nxt += 1
+            elif m == "grow0":
+                for _ in range(4):
+                    ls.append("addh 0 %d" % nxt); nxt += 1
+            elif m in ("mrg01", "mrg10"):
+                ls.append("mrg %s %s" % (m[3], m[4]))
+            elif m == "asg01":
+                ls.append("asg 0 1")
+            elif m == "mov":
+                ls += ["mov 2 0", "mrg 1 2", "del 2"]
+            elif m in ("pop0", "pop1"):
+                ls.append("pop %s" % m[-1])
+            elif m == "clear0":
+                ls.append("clear 0")
+            elif m in ("del0", "del1"):
+                ls += ["del %s" % m[-1], "ctor %s" % m[-1]] if m == "del0" else ["del 1", "ctorv 1 6"]
+            elif m in ("await0", "await1"):
+                me += 1
+                ls.append("await %s %d" % (m[-1], DRIVER_ID if mode == "c" else me))
+        ls.append("end")
+        return {"id": 0, "lines": ls}
+
     def gen_cases(self, rng, tier):
-        n = 1000 if tier == "quick" else 50000
-        cases = self.boundary_cases()
+        n = 1000 if tier == "quick" else 150000
+        cases = self.boundary_cases() + self.exhaustive_cases(3 if tier == "quick" else 4)
         for _ in range(n):
             cases.append(self.gen_case(rng))
         return cases
